@@ -17,6 +17,10 @@ rust_i18n::i18n!("./locales", fallback = "en");
 #[cfg(emmyluals_emmylua_analyzer_rust_verif)]
 pub use server::verif_serve;
 #[cfg(emmyluals_emmylua_analyzer_rust_verif)]
+mod verif_lock;
+#[cfg(emmyluals_emmylua_analyzer_rust_verif)]
+pub use verif_lock::{verif_lock_trace_enable, verif_lock_trace_take};
+#[cfg(emmyluals_emmylua_analyzer_rust_verif)]
 pub use handlers::verif_semantic_push_and_build;
 #[cfg(emmyluals_emmylua_analyzer_rust_verif)]
 pub use handlers::{verif_references, verif_rename};
